@@ -1,6 +1,7 @@
 package harness
 
 import (
+	"context"
 	"errors"
 	"fmt"
 	"time"
@@ -527,6 +528,32 @@ func checkC17(c *checkCtx) {
 			}
 			if got := fs.Flags&FHedge != 0; got != wantHedge {
 				c.fail("C17.flags", "hedge", fmt.Sprintf("exec %d: function invocation %d has IsHedge=%v but it runs %s", v.ID, fs.A, got, map[bool]string{true: "as a hedge attempt", false: "outside any hedge attempt"}[wantHedge]))
+			}
+			// the execution an invocation holds keeps describing the most recent completed attempt for as long as the
+			// invocation runs: without overlapping attempts none completes meanwhile, whatever else happens to the
+			// execution (a Timeout firing, a cancellation)
+			overlapped := false
+			if n.FnEnd != nil {
+				for _, o := range v.FnEnds {
+					if o != n.FnEnd && o.Seq > fs.Seq && o.Seq < n.FnEnd.Seq {
+						overlapped = true // an abandoned invocation outlived by a later attempt
+					}
+				}
+			}
+			if fe := n.FnEnd; fe != nil && !hasHedge && !overlapped && fe.Flags&FHasExec != 0 {
+				c.cov("c17.last_result_stable_checked")
+				if fe.Flags&FIsCanceled != 0 {
+					c.cov("c17.last_result_stable_checked_cancelled")
+				}
+				// LastError() of a cancelled execution that has no error of its own reports the context's error
+				// (documented behaviour of the accessor, execution.go): that one change is expected
+				ctxErrShown := fe.Flags&FIsCanceled != 0 && fs.LastErr == nil && (fe.LastErr == context.Canceled || fe.LastErr == context.DeadlineExceeded) && sameOutcome(fs.LastVal, nil, fe.LastVal, nil)
+				if ctxErrShown {
+					c.cov("c17.last_error_shows_context_error")
+				}
+				if !ctxErrShown && !sameOutcome(fs.LastVal, fs.LastErr, fe.LastVal, fe.LastErr) {
+					c.fail("C17.last", "unstable", fmt.Sprintf("exec %d: function invocation %d saw LastResult/LastError (%s, %s) when it started and (%s, %s) when it returned although no attempt completed in between", v.ID, fs.A, fmtVal(fs.LastVal), fmtErr(fs.LastErr), fmtVal(fe.LastVal), fmtErr(fe.LastErr)))
+				}
 			}
 			if hasHedge || concurrent || canceledAt(fs) {
 				continue
